@@ -11,10 +11,44 @@ use crate::rm::time::Inst;
 use crate::run::{finish, preflight, Ctx, Report, Tally, Tier};
 
 pub const FIELDS: [&str; 4] = ["date", "region", "service", "terminator"];
-pub const KINDS: [&str; 9] = ["prefix", "suffix", "extended", "case", "empty", "space-before", "space-after", "other-value", "embedded-slash"];
+// (the last four: bytes that are white space to Unicode-aware string functions once a header value is read as
+// Latin-1 — NBSP 0xA0, NEL 0x85, TAB; they travel as single bytes on the header carrier)
+pub const KINDS: [&str; 16] = [
+    "prefix", "suffix", "extended", "case", "empty", "space-before", "space-after", "other-value", "embedded-slash", "nbsp-before", "nbsp-after", "nel-after", "tab-after",
+    // something in front of the value (a sign or a zero would survive a numeric comparison), one to all bytes written as
+    // percent escapes (a credential is not decoded a second time), another component's value in this slot
+    "prepended", "percent", "swapped",
+];
 
-fn near_miss(kind: &str, v: &str, r: &mut Rng, field: &str, t: Inst) -> String {
+fn near_miss(kind: &str, v: &str, r: &mut Rng, field: &str, t: Inst, base: &[String]) -> String {
     match kind {
+        "prepended" => format!("{}{}", r.pick(&["0", "+", "x", "-"]), v),
+        "percent" => {
+            let all = r.coin();
+            let hit = r.usize_below(v.len().max(1));
+            let mut out = String::new();
+            for (i, b) in v.bytes().enumerate() {
+                if all || i == hit {
+                    if r.coin() {
+                        out.push_str(&format!("%{:02X}", b));
+                    } else {
+                        out.push_str(&format!("%{:02x}", b));
+                    }
+                } else {
+                    out.push(b as char);
+                }
+            }
+            if v.is_empty() {
+                out.push_str("%00");
+            }
+            out
+        }
+        "swapped" => match field {
+            "date" => base[2].clone(),
+            "region" => base[3].clone(),
+            "service" => base[2].clone(),
+            _ => base[3].clone(),
+        },
         "prefix" => v[..v.len().saturating_sub(1)].to_string(),
         "suffix" => v[1.min(v.len())..].to_string(),
         "extended" => format!("{}{}", v, r.pick(&["0", "a", "-", "x"])),
@@ -29,12 +63,26 @@ fn near_miss(kind: &str, v: &str, r: &mut Rng, field: &str, t: Inst) -> String {
         "empty" => String::new(),
         "space-before" => format!(" {}", v),
         "space-after" => format!("{} ", v),
+        "nbsp-before" => format!("\u{a0}{}", v),
+        "nbsp-after" => format!("{}\u{a0}", v),
+        "nel-after" => format!("{}\u{85}", v),
+        "tab-after" => format!("{}\t", v),
         "embedded-slash" => {
             let m = v.len() / 2;
             format!("{}/{}", &v[..m], &v[m..])
         }
         _ => match field {
-            "date" => t.plus_s(*r.pick(&[86400i64, -86400, 86400 * 365, -86400 * 31])).yyyymmdd(),
+            "date" => match r.below(6) {
+                0 => {
+                    let (y, m, d, ..) = t.civil();
+                    format!("{:04}-{:02}-{:02}", y, m, d)
+                }
+                1 => {
+                    let (y, m, d, ..) = t.civil();
+                    format!("{:04} {:02}{:02}", y, m, d)
+                }
+                _ => t.plus_s(*r.pick(&[86400i64, -86400, 86400 * 365, -86400 * 31])).yyyymmdd(),
+            },
             "region" => r.pick(&crate::gen::REGIONS).to_string(),
             "service" => r.pick(&crate::gen::SERVICES).to_string(),
             _ => r.pick(&["aws4_request ", "aws_request", "aws4", "AWS4_REQUEST", "aws4_requesT"]).to_string(),
@@ -47,9 +95,19 @@ fn shard(seed: u64, shard: u64, n: u64) -> Tally {
     for i in 0..n {
         let mut r = Rng::keyed(seed, "C03", "scope", shard, i);
         // near-miss server pairs: regions / services that are prefixes or case variants of each other
+        // (now and then: an empty region or service, or region and service equal to each other — neither is a wildcard)
+        let (region, service) = match r.below(12) {
+            0 => (String::new(), r.pick(&crate::gen::SERVICES).to_string()),
+            1 => (r.pick(&crate::gen::REGIONS).to_string(), String::new()),
+            2 => {
+                let v = r.pick(&crate::gen::REGIONS).to_string();
+                (v.clone(), v)
+            }
+            _ => (r.pick(&crate::gen::REGIONS).to_string(), r.pick(&crate::gen::SERVICES).to_string()),
+        };
         let cfg = Cfg {
-            region: r.pick(&crate::gen::REGIONS).to_string(),
-            service: r.pick(&crate::gen::SERVICES).to_string(),
+            region,
+            service,
             s3: r.chance(1, 4),
             fold: false,
             reqs: Reqs {
@@ -83,6 +141,42 @@ fn shard(seed: u64, shard: u64, n: u64) -> Tally {
             }
             t.count("token_on_the_other_channel");
         }
+        // session tokens of unusual shape are still the session token, passed on as sent
+        if l.token.is_some() && r.chance(1, 4) {
+            l.token = Some(match r.below(5) {
+                0 => String::new(),
+                1 => "%41bc%2F".to_string(),
+                2 => "a b,c;d=e".to_string(),
+                3 => crate::gen::gen_token(&mut r).repeat(30),
+                _ => "+/=".to_string(),
+            });
+            t.count("token_of_unusual_shape");
+        }
+        // a timestamp on the *other* channel that names another UTC day is not the request's timestamp: scope date and
+        // the date the provider is asked for come from the carrier in use
+        if r.chance(1, 6) {
+            let other = l.t.plus_s(*r.pick(&[86400i64, -86400, 86400 * 2, -86400 * 30]));
+            if l.carrier == Carrier::Query {
+                let name = *r.pick(&["date", "x-amz-date"]);
+                let val = if r.coin() {
+                    other.compact().into_bytes()
+                } else {
+                    b"Sun, 30 Aug 2015 23:59:00 GMT".to_vec()
+                };
+                if !l.extra.iter().any(|(n, _)| n == name) {
+                    l.extra.push((name.to_string(), vec![val]));
+                    if r.coin() {
+                        l.signed.push(name.to_string());
+                        l.signed.sort();
+                        l.signed.dedup();
+                    }
+                    t.count("date_on_the_other_channel");
+                }
+            } else {
+                l.url_pairs.push((b"X-Amz-Date".to_vec(), other.compact().into_bytes()));
+                t.count("date_on_the_other_channel");
+            }
+        }
         // midnight straddling: the request instant is within 15 min of 00:00 UTC and is written with an offset
         let straddle = r.chance(1, 3);
         let mut ts_text: Option<String> = None;
@@ -114,7 +208,12 @@ fn shard(seed: u64, shard: u64, n: u64) -> Tally {
                     let pos = r.usize_below(parts.len() + 1);
                     parts.insert(pos, r.pick(&["x", "aws4_request", "", "us-east-1"]).to_string());
                 }
-                (parts.join("/"), format!("arity-{}", k))
+                if k == 5 && r.chance(1, 3) {
+                    // five components whose separators are written as escapes: one part, not five
+                    (parts.join("%2F"), "arity-1".to_string())
+                } else {
+                    (parts.join("/"), format!("arity-{}", k))
+                }
             }
             3 if straddle => {
                 // the date of the *local* rendering instead of the UTC date
@@ -124,11 +223,27 @@ fn shard(seed: u64, shard: u64, n: u64) -> Tally {
                 parts[1] = local;
                 (parts.join("/"), "local-date".to_string())
             }
+            4 => {
+                // the access key with a blank-like byte at either end is another access key: no scope component is
+                // touched, so the request travels to the provider, which must be asked for the key as sent
+                let pad = *r.pick(&["\u{a0}", "\u{85}", "\t", "\u{a0}\u{a0}"]);
+                let mut parts = base.to_vec();
+                match r.below(8) {
+                    0 => parts[0] = String::new(),
+                    1 => parts[0] = format!("{} ", parts[0]),
+                    2 => parts[0] = "AK=IA+x".to_string(),
+                    3 => parts[0] = format!("AKIA{}", "Z9".repeat(62)),
+                    4 => parts[0] = format!("{}%41%2F", parts[0]),
+                    5 => parts[0] = format!("{}{}", pad, parts[0]),
+                    _ => parts[0] = format!("{}{}", parts[0], pad),
+                }
+                (parts.join("/"), "access-key-unusual".to_string())
+            }
             _ => {
                 let f = r.usize_below(4);
                 let kind = *r.pick(&KINDS);
                 let mut parts = base.to_vec();
-                parts[f + 1] = near_miss(kind, &base[f + 1], &mut r, FIELDS[f], l.t);
+                parts[f + 1] = near_miss(kind, &base[f + 1], &mut r, FIELDS[f], l.t, &base);
                 (parts.join("/"), format!("{}/{}", FIELDS[f], kind))
             }
         };
@@ -173,6 +288,23 @@ fn shard(seed: u64, shard: u64, n: u64) -> Tally {
             };
             let delta = r.range(-600, 600) as i128 * 1_000_000_000;
             let (mut case, _) = make_case(&l, &cfg, &mut sp, &ov, delta);
+            if l.carrier == Carrier::Header {
+                // header values are bytes: NBSP / NEL travel as the single Latin-1 bytes 0xA0 / 0x85
+                for h in case.wire.headers.iter_mut().filter(|h| h.0.eq_ignore_ascii_case(b"authorization")) {
+                    let mut out = Vec::with_capacity(h.1.len());
+                    let mut k = 0;
+                    while k < h.1.len() {
+                        if h.1[k] == 0xC2 && k + 1 < h.1.len() && (h.1[k + 1] == 0xA0 || h.1[k + 1] == 0x85) {
+                            out.push(h.1[k + 1]);
+                            k += 2;
+                        } else {
+                            out.push(h.1[k]);
+                            k += 1;
+                        }
+                    }
+                    h.1 = out;
+                }
+            }
             if let Some(a) = fixed {
                 case.script.answer = a;
             }
